@@ -15,6 +15,7 @@ import (
 	"github.com/google/certificate-transparency-go/trillian/ctfe"
 	"github.com/google/certificate-transparency-go/trillian/ctfe/configpb"
 	"github.com/google/certificate-transparency-go/x509"
+	"github.com/google/certificate-transparency-go/x509util"
 	"pgregory.net/rapid"
 
 	"verif/internal/ctfex"
@@ -130,7 +131,7 @@ func logConfig(w Window, expiry int) *configpb.LogConfig {
 
 // windowOpts runs the configured window through the front end's own configuration path:
 // LogConfig timestamps and flags -> ValidateLogConfig -> NewCertValidationOpts.
-func windowOpts(w Window, p Policy) (ctfe.CertValidationOpts, error) {
+func windowOpts(w Window, p Policy, pool *x509util.PEMCertPool) (ctfe.CertValidationOpts, error) {
 	vc, err := ctfe.ValidateLogConfig(logConfig(w, p.Expiry))
 	if err != nil {
 		return ctfe.CertValidationOpts{}, err
@@ -139,7 +140,7 @@ func windowOpts(w Window, p Policy) (ctfe.CertValidationOpts, error) {
 	if p.Expiry != 0 {
 		now = p.Now.Time()
 	}
-	return ctfe.NewCertValidationOpts(roots(), now, vc.Config.RejectExpired, vc.Config.RejectUnexpired, vc.NotAfterStart, vc.NotAfterLimit, vc.Config.AcceptOnlyCa, vc.KeyUsages), nil
+	return ctfe.NewCertValidationOpts(pool, now, vc.Config.RejectExpired, vc.Config.RejectUnexpired, vc.NotAfterStart, vc.NotAfterLimit, vc.Config.AcceptOnlyCa, vc.KeyUsages), nil
 }
 
 // judgeValidate checks ValidateChain under w (and policy p) for a leaf expiring at the whole second s.
@@ -329,7 +330,11 @@ func checkWindow(t *testing.T, c WindowCase) (v harness.Verdict) {
 	case 2:
 		v.Class("policy:reject-unexpired")
 	}
-	opts, err := windowOpts(w, pol)
+	pool, trusted := trustFor(c.Chain, secsOf(c.Probes))
+	if c.Chain.Lone {
+		v.Class("chain:lone-root")
+	}
+	opts, err := windowOpts(w, pol, pool)
 	if err != nil {
 		v.Failf("ctfe-valid-window-refused", "ValidateLogConfig refuses window %v: %v", w, err)
 		return v
@@ -339,10 +344,10 @@ func checkWindow(t *testing.T, c WindowCase) (v harness.Verdict) {
 	var be *reflog.Log
 	if c.ViaInstance {
 		be = reflog.New(6962, 1)
-		inst, err = ctfex.New(ctfex.Opts{LogKey: keys.Pick("p256", 1), Roots: world.Roots(), Backend: be, Cfg: func(lc *configpb.LogConfig) {
+		inst, err = newInstance(ctfex.Opts{LogKey: keys.Pick("p256", 1), Roots: trusted, Backend: be, Cfg: func(lc *configpb.LogConfig) {
 			lc.NotAfterStart, lc.NotAfterLimit = ts(w.Start), ts(w.Limit)
 			lc.RejectExpired, lc.RejectUnexpired = c.Expiry == 1, c.Expiry == 2
-		}})
+		}}, c.Chain.Lone)
 		if err != nil {
 			v.Failf("ctfe-valid-window-refused", "instance set-up refuses window %v: %v", w, err)
 			return v
